@@ -484,6 +484,29 @@ static void vf_case(uint64_t c, vf_rng *r)
             chk_sqrt64(b + 1, 0);
             VF_ADD("sqrt64", 3);
         }
+        /* where a starting-value or digit-recurrence case split of ANY shape would sit: a * 2^j for small a, and the stretch just
+           below and above it (t from 0 up to 2^-24 of the value): the top of each mantissa class x = m * 4^k, 1 <= m < 4, is where a
+           start chosen from the leading bits is closest to the root (seeded change C19-G: a table start rounded down is below the root
+           only for x within 2^-31 below 3 * 4^30 and 3 * 4^31) */
+        for (unsigned j = 0; j < 64; ++j)
+        {
+            for (uint64_t a = 1; a <= 15; ++a)
+            {
+                uint64_t const base = a << j;
+                if (base >> j != a) { continue; }
+                for (unsigned w = 0; w <= 40; w += 4)
+                {
+                    uint64_t const t = w == 0 ? 0 : (vf_u64(r) & ((1ull << w) - 1));
+                    if (j >= w + 20 || w == 0)
+                    {
+                        chk_sqrt64(base - 1 - t, 0);
+                        chk_sqrt64(base + t, 0);
+                        VF_ADD("sqrt64", 2);
+                        VF_ADD("sqrt64-around-small-multiples-of-powers-of-two", 2);
+                    }
+                }
+            }
+        }
         chk_sqrt64(UINT64_MAX, 0);
         chk_sqrt64(UINT64_MAX - 1, 0);
         chk_sqrt64(0xFFFFFFFE00000001ull, 2); /* (2^32-1)^2 */
